@@ -1,6 +1,7 @@
 import Goat.Driver.Parse
 import Goat.Driver.Num
 import Goat.Driver.OMap
+import Goat.Driver.Load
 /-! goatmodel: one operation per input line, one canonical output line per operation. -/
 open Goat.Driver
 
@@ -11,6 +12,7 @@ def step (st : DriverState) (line : String) : DriverState × String :=
   match (line.trimAscii.toString.splitOn " ").filter (· ≠ "") with
   | "parse" :: args => (st, parseCmd args)
   | "num" :: args => (st, numCmd args)
+  | "load" :: args => (st, loadCmd args)
   | "omap" :: args => let (s, o) := omapCmd st.omap args; ({ st with omap := s }, o)
   | _ => (st, "bad-op")
 
